@@ -125,11 +125,14 @@ type VC struct {
 	dropped  map[string]int
 	relied   map[string]bool // callee contracts applied at call sites
 	allocEvents []*allocEvent // calls that only allocate in some heaps (see allocFrameAxioms)
+	heapRef  map[string]string // heaps whose values are references: name -> "field" | "elem" | "map:<keysort>"
+	heapVers []heapVer // named versions of reference-valued heaps (closure axioms)
+	curReach string   // path condition of the instruction being executed
 }
 
 func newVC(eng *Engine, key string) *VC {
 	return &VC{eng: eng, fnKey: key, declared: map[string]string{}, heapSort: map[string]string{},
-		abstr: map[string]bool{}, assumed: map[string]bool{}, specUsed: map[string]bool{}, oblCount: map[string]int{}, dropped: map[string]int{}, relied: map[string]bool{}}
+		abstr: map[string]bool{}, assumed: map[string]bool{}, specUsed: map[string]bool{}, oblCount: map[string]int{}, dropped: map[string]int{}, relied: map[string]bool{}, heapRef: map[string]string{}}
 }
 
 func (vc *VC) fresh(prefix, sort string) string {
@@ -193,6 +196,22 @@ func (vc *VC) heapSet(st *State, name, term string) {
 	c := vc.fresh(name, vc.heapSort[name])
 	vc.fact(eq(c, term))
 	st.heaps[name] = c
+	vc.noteVersion(st, name, c)
+}
+
+type heapVer struct{ c, name, alloc, reach string }
+
+// noteVersion remembers a named version of a heap for the closure axioms
+// (see closureAxioms): the allocation watermark and the path condition at
+// the time the version came into being.
+func (vc *VC) noteVersion(st *State, name, c string) {
+	if strings.HasPrefix(name, "F$") || strings.HasPrefix(name, "E$") || strings.HasPrefix(name, "MV$") {
+		r := vc.curReach
+		if r == "" {
+			r = "true"
+		}
+		vc.heapVers = append(vc.heapVers, heapVer{c: c, name: name, alloc: st.alloc, reach: r})
+	}
 }
 
 func (vc *VC) heapHavoc(st *State, name string) string {
@@ -203,6 +222,7 @@ func (vc *VC) heapHavoc(st *State, name string) string {
 	}
 	c := vc.fresh(name, vc.heapSort[name])
 	st.heaps[name] = c
+	vc.noteVersion(st, name, c)
 	return c
 }
 
@@ -293,7 +313,115 @@ func (vc *VC) registerHeap(l *Loc) string {
 			vc.heapSort[name] = s
 		}
 	}
+	if _, ok := vc.heapRef[name]; !ok {
+		suffix := ""
+		okT := s_isRef(l.typ)
+		if !okT && l.typ != nil {
+			switch l.typ.Underlying().(type) {
+			case *types.Slice:
+				okT, suffix = true, ":slc"
+			case *types.Interface:
+				okT, suffix = true, ":ifc"
+			}
+		}
+		if okT {
+			switch l.kind {
+			case locField:
+				vc.heapRef[name] = "field" + suffix
+			case locElem:
+				vc.heapRef[name] = "elem" + suffix
+			}
+		}
+	}
 	return name
+}
+
+func s_isRef(t types.Type) bool {
+	if t == nil {
+		return false
+	}
+	switch t.Underlying().(type) {
+	case *types.Pointer, *types.Map, *types.Chan:
+		return true
+	}
+	return false
+}
+
+// entryClosureAxioms: in the entry state every reference stored in an
+// object designates an object that exists (0 <= r <= alloc@0).  Loads in
+// code get this fact per load (assumeWF); specifications that quantify need
+// it for the terms they build.
+func (vc *VC) entryClosureAxioms() []string {
+	var out []string
+	type ent struct{ c, kind, alloc, reach string }
+	var ents []ent
+	for _, name := range sortedKeys(vc.heapRef) {
+		c := sanitize(name) + "@0"
+		if _, ok := vc.declared[c]; !ok {
+			continue
+		}
+		ents = append(ents, ent{c, vc.heapRef[name], "alloc@0", "true"})
+	}
+	// later versions (stores, havocs, merges): every reference the code can
+	// produce designates an object allocated by then, so does everything stored
+	for _, hv := range vc.heapVers {
+		if k, ok := vc.heapRef[hv.name]; ok {
+			ents = append(ents, ent{hv.c, k, hv.alloc, hv.reach})
+		}
+	}
+	for _, e := range ents {
+		c, kind := e.c, e.kind
+		var ax string
+		proj := func(t string) string { return t }
+		if strings.HasSuffix(kind, ":slc") {
+			kind = strings.TrimSuffix(kind, ":slc")
+			proj = func(t string) string { return "(s-arr " + t + ")" }
+		} else if strings.HasSuffix(kind, ":ifc") {
+			kind = strings.TrimSuffix(kind, ":ifc")
+			proj = func(t string) string { return "(i-val " + t + ")" }
+		}
+		switch {
+		case kind == "field":
+			t := fmt.Sprintf("(select %s r!)", c)
+			ax = fmt.Sprintf("(forall ((r! Int)) (! (and (<= 0 %s) (<= %s %s)) :pattern (%s)))", proj(t), proj(t), e.alloc, t)
+		case kind == "elem":
+			t := fmt.Sprintf("(select (select %s r!) i!)", c)
+			ax = fmt.Sprintf("(forall ((r! Int) (i! Int)) (! (and (<= 0 %s) (<= %s %s)) :pattern (%s)))", proj(t), proj(t), e.alloc, t)
+		case strings.HasPrefix(kind, "map:"):
+			ks := strings.TrimPrefix(kind, "map:")
+			t := fmt.Sprintf("(select (select %s m!) k!)", c)
+			ax = fmt.Sprintf("(forall ((m! Int) (k! %s)) (! (and (<= 0 %s) (<= %s %s)) :pattern (%s)))", ks, proj(t), proj(t), e.alloc, t)
+		}
+		if ax == "" {
+			continue
+		}
+		if e.reach != "true" && e.reach != "" {
+			ax = implies(e.reach, ax)
+		}
+		out = append(out, ax)
+	}
+	return out
+}
+
+func (vc *VC) entryClosureAxiomsOld() []string {
+	var out []string
+	for _, name := range sortedKeys(vc.heapRef) {
+		c := sanitize(name) + "@0"
+		if _, ok := vc.declared[c]; !ok {
+			continue
+		}
+		kind := vc.heapRef[name]
+		switch {
+		case kind == "field":
+			out = append(out, fmt.Sprintf("(forall ((r! Int)) (! (and (<= 0 (select %s r!)) (<= (select %s r!) alloc@0)) :pattern ((select %s r!))))", c, c, c))
+		case kind == "elem":
+			out = append(out, fmt.Sprintf("(forall ((r! Int) (i! Int)) (! (and (<= 0 (select (select %s r!) i!)) (<= (select (select %s r!) i!) alloc@0)) :pattern ((select (select %s r!) i!))))", c, c, c))
+		case strings.HasPrefix(kind, "map:"):
+			ks := strings.TrimPrefix(kind, "map:")
+			out = append(out, fmt.Sprintf("(forall ((m! Int) (k! %s)) (! (and (<= 0 (select (select %s m!) k!)) (<= (select (select %s m!) k!) alloc@0)) :pattern ((select (select %s m!) k!))))", ks, c, c, c))
+		}
+	}
+	return out
 }
 
 // leafLocs enumerates the scalar leaves under loc.
@@ -548,11 +676,20 @@ func (vc *VC) mergeStates(conds []string, sts []*State) *State {
 		if same {
 			return first
 		}
+		c := vc.fresh(hint, sort)
+		if strings.HasPrefix(sort, "(Array") {
+			// heaps: one guarded equation per incoming path instead of an ite
+			// term - the e-graph then identifies the merged heap with the
+			// incoming one on each path, which is what E-matching needs
+			for i := range sts {
+				vc.fact(implies(conds[i], eq(c, get(sts[i]))))
+			}
+			return c
+		}
 		t := get(sts[len(sts)-1])
 		for i := len(sts) - 2; i >= 0; i-- {
 			t = ite(conds[i], get(sts[i]), t)
 		}
-		c := vc.fresh(hint, sort)
 		vc.fact(eq(c, t))
 		return c
 	}
